@@ -50,7 +50,7 @@ def gen_history(rng, maxlen=12, from_ctor=False):
                 if n is None:
                     continue
                 kd = rng.choice(["i", "f", "O"])
-                labels, _ = gen.labels_of_kind(rng, kd, rng.randint(0, 3))
+                labels, _ = gen.labels_of_kind(rng, kd, rng.choice([0, 1, 2, 2, 2, 3]))     # equal lengths are frequent
                 out.append({"name": n, "kind": kd, "labels": labels})
             used.add(out[-1]["name"])
         bad = None
@@ -151,8 +151,14 @@ def gen_history(rng, maxlen=12, from_ctor=False):
             i = rng.randrange(len(sim.axes))
             ax = sim.axes[i]
             labels, _ = gen.labels_of_kind(rng, ax[1], len(ax[2]))
-            d = ["name", ax[0]] if rng.random() < 0.5 else ["pos", i]
-            ops.append({"op": rng.choice(["set_labels", "replace_axis"]), "d": d, "labels": labels, "lkind": ax[1]})
+            d = ["name", ax[0]] if rng.random() < 0.4 else ["pos", i]
+            holders = [k for k, v in sim.vars.items() if ax[0] in v]
+            if rng.random() < 0.3 and ax[0].isidentifier():
+                # attribute syntax: ds.<dim> = labels, or through one of the variables ds[k].<dim> = labels
+                ops.append({"op": "set_labels_attr", "name": ax[0], "via": rng.choice(holders) if holders and rng.random() < 0.6 else None,
+                            "labels": labels, "lkind": ax[1]})
+            else:
+                ops.append({"op": rng.choice(["set_labels", "replace_axis", "replace_axis"]), "d": d, "labels": labels, "lkind": ax[1]})
             ax[2][:] = labels
         elif r < 0.9 and sim.vars:
             old = rng.choice(list(sim.vars))
@@ -249,6 +255,9 @@ class C13(Prop):
             ds.dims = tuple(op["names"])
         elif t == "set_label":
             ds.axes[op["d"][1]][op["i"]] = core.dec_label(op["label"], op["lkind"])
+        elif t == "set_labels_attr":
+            target = ds if op["via"] is None else ds[op["via"]]
+            setattr(target, op["name"], core.label_array(op["labels"], op["lkind"]))
         elif t == "set_labels":
             ds.set_axis(core.label_array(op["labels"], op["lkind"]), axis=op["d"][1])
         elif t == "replace_axis":
@@ -262,7 +271,10 @@ class C13(Prop):
             raise ValueError(t)
 
     def request(self, c):
-        return {"op": "ds_history", "ops": c["ops"]}
+        # attribute-style relabelling is the same state change as set_axis by name
+        ops = [dict(op="set_labels", d=["name", o["name"]], labels=o["labels"], lkind=o["lkind"]) if o["op"] == "set_labels_attr" else o
+               for o in c["ops"]]
+        return {"op": "ds_history", "ops": ops}
 
     def judge(self, c, io, ans):
         bad, prop_bad = [], []
